@@ -113,6 +113,14 @@ type failingBody struct {
 	left int
 }
 
+// shortBy: how many bytes before its declared Content-Length the body of this reply ends (0: it does not)
+func shortBy(rp *Reply, body string) int {
+	if rp.ShortEOF <= 0 || rp.Chunked || rp.NoCL || rp.BodyFail >= 0 || len(body) <= rp.ShortEOF+8 {
+		return 0
+	}
+	return rp.ShortEOF
+}
+
 // stallingBody: the first Read waits (virtual time) before anything arrives; Close releases a waiting Read
 type stallingBody struct {
 	io.ReadCloser
@@ -213,6 +221,13 @@ func buildResponse(req *http.Request, rp *Reply, n, k int) (*http.Response, stri
 	}
 	if rp.BodyFail >= 0 && body != "" {
 		resp.Body = &failingBody{r: resp.Body, left: rp.BodyFail}
+	}
+	if short := shortBy(rp, body); short > 0 {
+		resp.Body = struct {
+			io.Reader
+			io.Closer
+		}{io.LimitReader(resp.Body, int64(len(body)-short)), resp.Body}
+		body = body[:len(body)-short]
 	}
 	if rp.BodyStallNs > 0 && body != "" {
 		resp.Body = &stallingBody{ReadCloser: resp.Body, stall: time.Duration(rp.BodyStallNs), done: make(chan struct{})}
@@ -765,6 +780,10 @@ func runHistory(t *testing.T, h *History) (lines []string) {
 					if !rp.Chunked && !rp.NoCL {
 						fr = append(fr, [2]string{"Content-Length", strconv.Itoa(len(body))})
 					}
+				}
+				if short := shortBy(&rp, body); short > 0 && kind == "resp" {
+					// the model and the monitors see what the upstream delivers: the declared length and the shorter body
+					kind, body = "resp-short", body[:len(body)-short]
 				}
 				rs.emit("I\tREPLY\t%d\t%d\t%s\t%d\t%s\t%s\t%d\t%d", n, k, kind, rp.Status, encHdrList(fr), hx(bodyRepr(body)), rp.DelayNs, rp.BodyFail)
 				frame := "cl"
